@@ -335,10 +335,10 @@ def main_check(prop, tier):
     print(f"{prop} {tier}: obligations={cnt(items)} discharged={cnt(ok)} known-findings={len(known_hit)} "
           f"violations={len(violations)} undecided={len(undec)} errors={len(errors)} "
           f"functions={len(funcs)} solver_s={solver_s:.2f} wall={time.time() - t0:.1f}s")
+    if violations:
+        return 1  # a replayed / named violation stands even if another group crashed
     if errors:
         return 3
-    if violations:
-        return 1
     if undec:
         return 2
     if len(ok) == 0:
